@@ -330,6 +330,8 @@ class Speller:
                 alts = [("raw", ch), o3] + osh
                 if c not in _NO_UNKNOWN_ESC:
                     alts.append(("unknown-esc", b"\\" + ch))
+            # ISO 32000-1 7.3.4.2: "high-order overflow shall be ignored": \ddd above \377 stands for ddd mod 256
+            alts.append(("oct-overflow", b"\\%03o" % (c + 256)))
             nfe = len(self.feats)
             piece = self.pick("str", _dedup(alts))
             if c in (0x28, 0x29) and rawparens:
